@@ -7,13 +7,14 @@
    K h^p", the time rescaling around CasADi's integrators, and — complete, local error bound proved by
    Taylor-Lagrange — order-1 convergence of expl_euler for every Lipschitz scalar ODE and order-4 convergence
    of rk on the linear test equation (Proofs/EulerConv.v, EulerConvVec.v), convergence (order >= 1) of rk for every
-   Lipschitz system and order 2 for scalar autonomous f (Proofs/RK4Conv.v).  NOT proved: the order-4 local error
-   bound of rk for a general smooth f (multivariate Taylor expansion to order 5) and superconvergence 2d-1 / 2d of
-   collocation; these
+   Lipschitz system, order 2 (Proofs/RK4Conv.v) and the CLASSICAL ORDER 4 (Proofs/RK4Order4.v) for scalar autonomous f,
+   collocation of degree 1 (Proofs/CollocConv.v, CollocOrder2.v).  NOT proved: order 4 of rk for systems / time-dependent
+   right-hand sides (multivariate elementary differentials) and superconvergence 2d-1 / 2d of collocation of degree > 1;
+   these
    enter C03_global_error_partial as the hypothesis on e and are measured numerically by the check. *)
 From Coq Require Import Reals ZArith QArith Qcanon List Lia Bool.
 From Coquelicot Require Import Coquelicot.
-From RV Require Import Proofs.VacuityA Base.Num Base.Vec Mech.Intg Spec.SpecDyn Inst Proofs.QcInst Proofs.ConvProofs Proofs.ConvReal Proofs.DerProofs Proofs.EulerConv Proofs.EulerConvVec Proofs.RK4Conv Mech.Colloc Proofs.CollocConv Proofs.CollocOrder2.
+From RV Require Import Proofs.VacuityA Base.Num Base.Vec Mech.Intg Spec.SpecDyn Inst Proofs.QcInst Proofs.ConvProofs Proofs.ConvReal Proofs.DerProofs Proofs.EulerConv Proofs.EulerConvVec Proofs.RK4Conv Mech.Colloc Proofs.CollocConv Proofs.CollocOrder2 Proofs.RK4Order4.
 Import ListNotations.
 
 Theorem C03_rk4_order_conditions :
@@ -361,6 +362,32 @@ Proof. exact (dc_legendre1_converges_order2 F n x t0 T L K2 K3 M Y Yc). Qed.
 Print Assumptions C03_dc_legendre1_converges_order2.
 
 
+(* rk at its CLASSICAL ORDER 4 for a general scalar autonomous ODE x' = f(x): f four times differentiable with bounded
+   derivatives, |f| <= B along the solution; every intermediate state of the model's loop is within C h^4 of the exact
+   solution, with the explicit constant C = (rk4_c5 + K5/120)(e^{TL'}-1)/L' and K5 = rk4_K5 B L F2 F3 F4 derived from the
+   bounds on f (x only has to be a solution).  One-step consistency against the degree-4 Taylor polynomial of the flow written
+   with the elementary differentials, remainder bounded stage by stage (Proofs/RK4Order4.v). *)
+Theorem C03_rk4_converges_order4_scalar_autonomous (f x : R -> R) (t0 T B L F2 F3 F4 : R) (M : nat) :
+  0 < T -> 0 < L -> (0 < M)%nat ->
+  (forall s k, (k <= 4)%nat -> ex_derive_n f k s) ->
+  (forall s, Rabs (Derive_n f 1 s) <= L) -> (forall s, Rabs (Derive_n f 2 s) <= F2) ->
+  (forall s, Rabs (Derive_n f 3 s) <= F3) -> (forall s, Rabs (Derive_n f 4 s) <= F4) ->
+  (forall t, is_derive x t (f (x t))) ->
+  (forall t, t0 <= t <= t0 + T -> Rabs (f (x t)) <= B) ->
+  let h := T / INR M in
+  let Q := T * L in
+  let L' := L * (1 + Q / 2 + Q ^ 2 / 6 + Q ^ 3 / 24) in
+  let C5 := rk4_c5 B L F2 F3 F4 T in
+  let K5 := rk4_K5 B L F2 F3 F4 in
+  let sys := mkSys (fun X (_ : R) => [f (nth 0 X 0)]) (fun _ _ => []) in
+  let st := @discrete_system R ROps (intg_rk sys) M 0 [x t0] T t0 in
+  forall j, (j <= M)%nat ->
+    Rabs (nth 0 (nth j (ds_X st) [x t0]) 0 - x (t0 + INR j * h))
+    <= ((C5 + K5 / 120) * ((exp (T * L') - 1) / L')) * h ^ 4.
+Proof. exact (rk4_converges_order4_closed f x t0 T B L F2 F3 F4 M). Qed.
+Print Assumptions C03_rk4_converges_order4_scalar_autonomous.
+
+
 Theorem C03_dc_degree1_coefficients :
   forall (F : Type) (OF : Ops F), FieldLaws OF -> (@o2 F OF) <> o0 ->
   (coeff_C [o1 : F] = [[oopp o1]; [o1]] /\ coeff_D [o1 : F] = [o0; o1] /\ coeff_B [o1 : F] = [o1]) /\
@@ -369,7 +396,7 @@ Proof. intros F OF Fl H2. split; [exact (coeff_radau1 Fl)|exact (coeff_legendre1
 Print Assumptions C03_dc_degree1_coefficients.
 
 Example C03_dc_nonvacuous : True /\ True.
-Proof. pose proof dc_radau1_decay as _. pose proof dc_legendre1_decay as _. pose proof dc_legendre1_decay_order2 as _. split; exact I. Qed.
+Proof. pose proof dc_radau1_decay as _. pose proof dc_legendre1_decay as _. pose proof dc_legendre1_decay_order2 as _. pose proof rk4_converges_order4_sin as _. split; exact I. Qed.
 
 (* further witnesses that the hypotheses of this file's theorems are met by realistic inputs (N = 1, M = 1, no controls,
    t0 = 0, concrete grids / collocation points): proved in Proofs/VacuityA.v by the vacuity audit *)
